@@ -12,7 +12,8 @@ ALL = ["C%02d" % i for i in range(1, 21)]
 NOT_APPLICABLE = {
     "C15": "CodonTable is two std HashMaps with RandomState: every construction reaches the getrandom foreign function "
            "(unsupported by Kani) and SipHash-per-bit + hashbrown SIMD probing with symbolic seeds does not finish "
-           "(10 min / 6 GB for a one-entry table); the order-independence clause quantifies over exactly those seeds. "
+           "(10 min / 6 GB for a one-entry table; re-probed with RandomState::new stubbed by symbolic keys: a two-entry HashMap<u8,u8> "
+           "lookup alone gave no verdict in 600 s); the order-independence clause quantifies over exactly those seeds. "
            "The solver-decidable ingredient (Hash/Eq/Borrow agreement of Seq and SeqSlice across offsets) is claimed under C02.",
 }
 PENDING = "check not built yet in this session (DESIGN.md section 4 describes the planned harnesses)"
